@@ -239,8 +239,13 @@ class SiteScan:
                 # v[lo..lo + n] with lo + n <= len(v) established on this path (n is a length, hence lo <= lo + n)
                 if i[0] == "agg" and i[2] == "Range" and len(i[4]) == 2:
                     lo, hi = i[4]
-                    if hi[0] == "add" and lo in hi[1:] and any(x[0] == "len" for x in hi[1:] if x != lo):
+                    if hi[0] == "add" and lo in hi[1:]:  # hi = lo + n with an unsigned n: lo <= hi; hi <= len(v) is the guard
                         if any(g.get(("lt", l2, hi)) is False for l2 in _len_aliases(("len", v))):
+                            return True, ""
+                        # lo drawn from a range that ends at len(v) + 1 - n: lo < len(v) + 1 - n, hence lo + n <= len(v)
+                        n_ = [x for x in hi[1:] if x != lo]
+                        sl, sv, sn = strip_ver(show(lo)), strip_ver(show(v)), strip_ver(show(n_[0])) if n_ else ""
+                        if n_ and re.match(r"^next\(Range::Range\{start: .*, end: sub\(add\(1, len\(%s\)\), %s\)\}\) as Some\.0$" % (re.escape(sv), re.escape(sn)), sl):
                             return True, ""
                 return False, "range index %s" % show(i)[:80]
             if any(g.get(("lt", i, l2)) is True for l2 in _len_aliases(("len", v))):
